@@ -1,5 +1,5 @@
 SPECIFICATION Spec
 CONSTANTS
   McFull = FALSE
-INVARIANTS Totality ScanRoundTrip WidthLaws PlainD VerbLaws SignLaws
+INVARIANTS Totality ScanRoundTrip WidthLaws PlainD VerbLaws SignLaws KindLaws PrintLaws
 CHECK_DEADLOCK FALSE
